@@ -2,6 +2,7 @@
 from __future__ import annotations
 
 import ast
+from ..expand import clone
 
 from ..cfg import CFG
 from ..loops import dotted
@@ -96,8 +97,8 @@ def _mask_stores(cfg, cls=None):
             m = {p: a for p, a in zip(params, s.value.args)}
             for k in s.value.keywords:
                 m[k.arg] = k.value
-            idx = _Subst(m).visit(copy.deepcopy(st.targets[0].slice))
-            val = _Subst(m).visit(copy.deepcopy(st.value))
+            idx = _Subst(m).visit(clone(st.targets[0].slice))
+            val = _Subst(m).visit(clone(st.value))
             out.append(MaskStore(n, idx, val, via=meth.name))
     return out
 
